@@ -178,6 +178,9 @@ Section P.
     simpl. unfold field_of_env. destruct (get_frame F s q); [|reflexivity]. destruct Hf as [-> | ->]; reflexivity.
   Qed.
 
+  Definition hops_eq_dec (a : hops) : {a = HLoop} + {a <> HLoop}.
+  Proof. destruct a; try (right; discriminate). left; reflexivity. Defined.
+
   (* ================================================================== evaluation of the place expressions *)
   Notation load_ptr := (load_ptr F fofbits).
   Notation store_slot := (store_slot F ftobits).
@@ -742,6 +745,11 @@ Section P.
 
   Definition le_loop (p : nat) (j : Z) (v : value) : lenv := [(V_i, VInt GInt j); (V_o, v); (V_env, VEnv p)].
 
+  Lemma ll_o p j v : llookup F (le_loop p j v) V_o = Some v. Proof. reflexivity. Qed.
+  Lemma lu_o p j v w : lupdate F (le_loop p j v) V_o w = Some (le_loop p j w). Proof. reflexivity. Qed.
+  Lemma ll_i p j v : llookup F (le_loop p j v) V_i = Some (VInt GInt j). Proof. reflexivity. Qed.
+  Lemma lu_i p j v j' : lupdate F (le_loop p j v) V_i (VInt GInt j') = Some (le_loop p j' v). Proof. reflexivity. Qed.
+
   (* m more iterations starting with i = j, o = the frame j hops up *)
   Lemma hop_loop_run (ce : cenv) p upn (s : state) fuel0 :
     sel_freeb ce = true -> clookup F ce (EVar V_upn) = Some (CV F (VInt GInt upn)) -> upn <= 9223372036854775807 ->
@@ -792,20 +800,20 @@ Section P.
             by (unfold w; destruct (fr_outer F fr); reflexivity).
           rewrite Ew. cbv beta iota.
           assert (Ea : assign_conv F (VEnv q) w = Ok w) by (unfold w; destruct (fr_outer F fr); reflexivity).
-          simpl llookup. rewrite Ea. simpl lupdate. unfold ret at 1.
+          rewrite ll_o, Ea, lu_o. unfold ret at 1.
           (* post: i++ *)
-          change (exec2 (SIncDec true (EVar V_i)) fuel0 ce ?l) with
-            (match llookup F l V_i with
+          change (exec2 (SIncDec true (EVar V_i)) fuel0 ce (le_loop p j w)) with
+            (match llookup F (le_loop p j w) V_i with
              | Some w0 => match local_incdec F true w0 with
-                          | Ok r => match lupdate F l V_i r with Some le' => ret F (ONormal F le') | None => stuck F end
+                          | Ok r1 => match lupdate F (le_loop p j w) V_i r1 with Some le1 => ret F (ONormal F le1) | None => stuck F end
                           | _ => stuck F end
              | None => stuck F
              end).
-          simpl llookup. unfold local_incdec. simpl ik_of. simpl lupdate. unfold bind, ret.
+          rewrite ll_i. unfold local_incdec. change (ik_of GInt) with (Some I64).
           assert (Hadd : GoInt.add I64 j 1 = j + 1).
           { unfold GoInt.add. apply wrap_id. unfold in_range. change (imin I64) with (-9223372036854775808).
             change (imax I64) with 9223372036854775807. lia. }
-          rewrite Hadd. apply (IH fuel (j + 1) w); try lia. exact Hw.
+          cbv beta iota. rewrite Hadd, lu_i. unfold bind, ret. apply (IH fuel (j + 1) w); try lia. exact Hw.
         * (* dangling frame: stuck, and so is the chain from here on *)
           assert (Hst : forall n, (Z.to_nat j < n)%nat -> chain s p n = Stuck).
           { intros n Hn. induction n as [|n IHn]; [lia|].
@@ -820,5 +828,315 @@ Section P.
           - simpl chain. rewrite Hc. reflexivity.
           - simpl chain. rewrite IHn by lia. reflexivity. }
         rewrite (Hst (Z.to_nat upn)) by lia. reflexivity.
+  Qed.
+
+  (* ================================================================== statement + epilogue *)
+  Notation int_op := (int_op F fbin fcmp fofbits ftobits).
+  Notation val_op := (val_op F fbin fcmp fconv).
+  Notation val_set := (val_set F fconv).
+
+  Definition then_next (p : nat) (m : Sem.M F unit) : Sem.M F (list value) := bind F m (fun _ => next_stmt p).
+
+  Lemma seq_epilogue st fuel (ce : cenv) (le : lenv) p (s : state) (m : Sem.M F unit) :
+    llookup F le V_env = Some (VEnv p) ->
+    exec2 st fuel ce le s = match m s with
+                            | Ok (_, s') => Ok (ONormal F le, s')
+                            | Panic x => Panic x | Stuck => Stuck | OutOfFuel => OutOfFuel end ->
+    exec2 (SSeq st epilogue) fuel ce le s = as_return (then_next p m s).
+  Proof.
+    intros Henv E. rewrite exec2_seq, E. unfold then_next, bind.
+    destruct (m s) as [[u s']| | |]; try reflexivity. apply exec_epilogue. exact Henv.
+  Qed.
+
+  Lemma le_ok_env h upn p (le : lenv) (s : state) : le_ok h upn p le s -> llookup F le V_env = Some (VEnv p).
+  Proof. intros [H _]. exact H. Qed.
+
+  Lemma op_body_sound op k h c r upn p idx fuel (ce : cenv) (le : lenv) (s : state) rhs :
+    sel_freeb ce = true -> le_ok h upn p le s -> idx_ok ce le idx -> rhs_src ce le r p rhs ->
+    exec2 (SSeq (op_stmt op k h c r) epilogue) fuel ce le s =
+    as_return (bind F (target h upn p) (fun q =>
+                 then_next p (match c with CInt => int_op op k q idx rhs | CVal => val_op op k q idx rhs end)) s).
+  Proof.
+    intros Hce Hle Hidx Hsrc. pose proof (le_ok_env _ _ _ _ _ Hle) as Henv.
+    pose proof (target_not_oof h upn p s) as Hn.
+    unfold bind at 1. destruct c.
+    - destruct (target h upn p s) as [[q s']| | |] eqn:T.
+      + destruct (target_state _ _ _ _ _ _ T) as [-> _].
+        apply seq_epilogue; [exact Henv|].
+        rewrite (op_int_sound op k h r upn p idx fuel ce le s rhs Hce Hle Hidx (rhs_src_ok _ _ _ _ _ Hsrc)), T.
+        unfold int_store, Model.int_op, ok_or_panic, bind, ret, stuck.
+        destruct (rhs s) as [[v s1]| | |]; try reflexivity;
+        destruct (load_ptr k q idx s1) as [[old s2]| | |]; try reflexivity;
+        destruct (binop_val op old v) as [r0| | |]; try reflexivity;
+        try (destruct (store_slot k q idx r0 s2) as [[u s3]| | |]; reflexivity).
+      + rewrite exec2_seq, (op_int_sound op k h r upn p idx fuel ce le s rhs Hce Hle Hidx (rhs_src_ok _ _ _ _ _ Hsrc)), T. reflexivity.
+      + rewrite exec2_seq, (op_int_sound op k h r upn p idx fuel ce le s rhs Hce Hle Hidx (rhs_src_ok _ _ _ _ _ Hsrc)), T. reflexivity.
+      + exfalso. apply Hn. reflexivity.
+    - destruct (target h upn p s) as [[q s']| | |] eqn:T.
+      + destruct (target_state _ _ _ _ _ _ T) as [-> _].
+        apply seq_epilogue; [exact Henv|].
+        rewrite (op_val_sound op k h r upn p idx fuel ce le s rhs Hce Hle Hidx Hsrc), T.
+        unfold bind, ret. destruct (val_op op k q idx rhs s) as [[u s1]| | |]; reflexivity.
+      + rewrite exec2_seq, (op_val_sound op k h r upn p idx fuel ce le s rhs Hce Hle Hidx Hsrc), T. reflexivity.
+      + rewrite exec2_seq, (op_val_sound op k h r upn p idx fuel ce le s rhs Hce Hle Hidx Hsrc), T. reflexivity.
+      + exfalso. apply Hn. reflexivity.
+  Qed.
+
+  Lemma set_body_sound k h c r upn p idx fuel (ce : cenv) (le : lenv) (s : state) rhs :
+    sel_freeb ce = true -> le_ok h upn p le s -> idx_ok ce le idx -> rhs_src ce le r p rhs ->
+    exec2 (SSeq (set_stmt k h c r) epilogue) fuel ce le s =
+    as_return (bind F (target h upn p) (fun q =>
+                 then_next p (match c with
+                              | CInt => bind F rhs (fun v => store_slot k q idx v)
+                              | CVal => val_set k q idx rhs end)) s).
+  Proof.
+    intros Hce Hle Hidx Hsrc. pose proof (le_ok_env _ _ _ _ _ Hle) as Henv.
+    pose proof (target_not_oof h upn p s) as Hn. pose proof (rhs_src_ok _ _ _ _ _ Hsrc) as Hrhs.
+    unfold bind at 1. destruct c.
+    - destruct (target h upn p s) as [[q s']| | |] eqn:T.
+      + destruct (target_state _ _ _ _ _ _ T) as [-> _].
+        apply seq_epilogue; [exact Henv|].
+        rewrite (set_int_sound k h r upn p idx fuel ce le s rhs Hce Hle Hidx Hrhs), T.
+        unfold bind, ret. destruct (rhs s) as [[v s1]| | |]; try reflexivity;
+        try (destruct (store_slot k q idx v s1) as [[u s3]| | |]; reflexivity).
+      + rewrite exec2_seq, (set_int_sound k h r upn p idx fuel ce le s rhs Hce Hle Hidx Hrhs), T. reflexivity.
+      + rewrite exec2_seq, (set_int_sound k h r upn p idx fuel ce le s rhs Hce Hle Hidx Hrhs), T. reflexivity.
+      + exfalso. apply Hn. reflexivity.
+    - destruct (target h upn p s) as [[q s']| | |] eqn:T.
+      + destruct (target_state _ _ _ _ _ _ T) as [-> _].
+        apply seq_epilogue; [exact Henv|].
+        rewrite (set_val_sound k h r upn p idx fuel ce le s rhs Hce Hle Hidx Hrhs), T.
+        unfold bind, ret. destruct (val_set k q idx rhs s) as [[u s1]| | |]; reflexivity.
+      + rewrite exec2_seq, (set_val_sound k h r upn p idx fuel ce le s rhs Hce Hle Hidx Hrhs), T. reflexivity.
+      + rewrite exec2_seq, (set_val_sound k h r upn p idx fuel ce le s rhs Hce Hle Hidx Hrhs), T. reflexivity.
+      + exfalso. apply Hn. reflexivity.
+  Qed.
+
+  (* ================================================================== the hop prefix *)
+  Lemma chain_fail_mono (s : state) p n m : (forall v, chain s p n <> Ok v) -> chain s p (n + m) = chain s p n.
+  Proof.
+    intros H. induction m as [|m IH]; [rewrite Nat.add_0_r; reflexivity|].
+    rewrite Nat.add_succ_r. simpl chain. rewrite IH.
+    destruct (chain s p n) as [v| | |]; try reflexivity. exfalso. apply (H v). reflexivity.
+  Qed.
+
+  Definition le0 (p : nat) : lenv := [(V_env, VEnv p)].
+  Definition le_o (p : nat) (w : value) : lenv := [(V_o, w); (V_env, VEnv p)].
+
+  Lemma hops_prefix rest fuel (ce : cenv) p upn (s : state) :
+    sel_freeb ce = true -> clookup F ce (EVar V_upn) = Some (CV F (VInt GInt upn)) ->
+    3 <= upn <= 9223372036854775807 -> (Z.to_nat upn - 3 < fuel)%nat ->
+    exec2 (with_hops HLoop rest) fuel ce (le0 p) s =
+    match chain s p (Z.to_nat upn) with
+    | Ok w => exec2 rest fuel ce (le_o p w) s
+    | Panic x => Panic x
+    | Stuck => Stuck
+    | OutOfFuel => OutOfFuel
+    end.
+  Proof.
+    intros Hce Hupn [H3 Hmax] Hfuel. simpl with_hops. rewrite exec2_seq.
+    change (exec2 (SDefine V_o ?e) fuel ce (le0 p)) with
+      (bind F (eval ce (le0 p) e) (fun v => ret F (ONormal F ((V_o, default_type F v) :: le0 p)))).
+    unfold bind at 1.
+    assert (E3 : eval ce (le0 p) (ESel (ESel (ESel venv F_Outer) F_Outer) F_Outer) s = ret_of (chain s p 3) s).
+    { apply eval_outer; [assumption|]. apply eval_outer; [assumption|]. apply eval_outer; [assumption|]. apply eval_lvar. reflexivity. }
+    rewrite E3.
+    assert (Hsplit : Z.to_nat upn = (3 + (Z.to_nat upn - 3))%nat) by lia.
+    destruct (chain s p 3) as [v| | |] eqn:C3.
+    2,3,4: (rewrite Hsplit, chain_fail_mono by (rewrite C3; discriminate); rewrite C3; reflexivity).
+    simpl ret_of. unfold ret at 1.
+    assert (Hd : default_type F v = v) by (destruct (chain_value s p 3 v C3) as [[q ->]| ->]; reflexivity).
+    rewrite Hd. rewrite exec2_seq.
+    change (exec2 hop_loop fuel ce ((V_o, v) :: le0 p)) with
+      (bind F (exec2 (SDefine V_i (ELit 3)) fuel ce ((V_o, v) :: le0 p)) (fun o =>
+          match o with
+          | OReturn _ _ => stuck F
+          | ONormal _ le1 =>
+            bind F (for_loop fuel (fun l => eval ce l (EBin Lss (EVar V_i) (EVar V_upn)))
+                      (fun l => exec2 (SAssign (EVar V_o) (ESel (EVar V_o) F_Outer)) fuel ce l)
+                      (fun l => exec2 (SIncDec true (EVar V_i)) fuel ce l) le1)
+              (fun o2 => match o2 with
+                         | ONormal _ l' => ret F (ONormal F (skipn (length l' - length ((V_o, v) :: le0 p)) l'))
+                         | OReturn _ _ => ret F o2
+                         end)
+          end)).
+    change (exec2 (SDefine V_i (ELit 3)) fuel ce ((V_o, v) :: le0 p)) with
+      (bind F (eval ce ((V_o, v) :: le0 p) (ELit 3)) (fun v0 => ret F (ONormal F ((V_i, default_type F v0) :: (V_o, v) :: le0 p)))).
+    change (eval ce ((V_o, v) :: le0 p) (ELit 3)) with (ret F (VUntyped 3) : Sem.M F value).
+    unfold bind at 1 2. unfold ret at 1 2. simpl default_type. unfold bind at 1.
+    change ((V_i, VInt GInt 3) :: (V_o, v) :: le0 p) with (le_loop p 3 v).
+    rewrite (hop_loop_run ce p upn s fuel Hce Hupn Hmax (Z.to_nat upn - 3) fuel 3 v Hfuel) by (try lia; exact C3).
+    destruct (chain s p (Z.to_nat upn)) as [w| | |]; try reflexivity.
+  Qed.
+
+  (* ================================================================== the whole closure *)
+  Notation run_stmt := (run_stmt F fbin fcmp fun1 fconv fpart fofbits ftobits).
+  Notation spec_tmpl := (spec_tmpl F fbin fcmp fconv fofbits ftobits).
+  Notation roots_of := (roots_of F).
+  Notation eval_lets := (eval_lets F fbin fcmp fun1 fconv fpart fofbits).
+  Notation ceval := (ceval F fbin fcmp fun1 fconv fpart fofbits).
+  Notation norm_const := (norm_const F fconv).
+  Transparent has_ty.
+
+  Definition hops_ok (h : hops) (upn : Z) (fuel : nat) : Prop :=
+    match h with HLoop => 3 <= upn <= 9223372036854775807 /\ (Z.to_nat upn - 3 < fuel)%nat | _ => True end.
+
+  Definition inputs_ok (t : tmpl) (i : inputs F) : Prop :=
+    match t with
+    | TVarOp op k h c RConst => if is_shiftop op then True else wf_value F k (in_c F i)
+    | TVarSet k h c RConst => wf_value F k (in_c F i)
+    | TVarQuoPow2 k h negy => 0 <= in_sh F i <= GoInt.width (ikd k) - 1
+    | _ => True
+    end.
+
+  Lemma run_of_body fuel (roots ce : cenv) lets body p (s : state) (X : Sem.M F (list value)) :
+    eval_lets roots lets = Some ce ->
+    exec2 body fuel ce (le0 p) s = as_return (X s) ->
+    run_stmt fuel roots (mkClosure lets envp stmt_results body) p s = X s.
+  Proof.
+    intros L E. unfold Model.run_stmt. cbn [c_lets c_params c_body]. rewrite L.
+    change (bind_params F envp [VEnv p]) with (Some (le0 p)).
+    unfold bind. rewrite E. destruct (X s) as [[vs s']| | |]; reflexivity.
+  Qed.
+
+  (* the body of a template under the hop prefix *)
+  Lemma hops_body_sound h rest fuel (ce : cenv) p upn (s : state) (X : nat -> Sem.M F (list value)) :
+    sel_freeb ce = true -> clookup F ce (EVar V_upn) = Some (CV F (VInt GInt upn)) \/ h <> HLoop -> hops_ok h upn fuel ->
+    (forall le, le_ok h upn p le s -> (h <> HLoop -> le = le0 p) -> (h = HLoop -> exists w, le = le_o p w) ->
+       exec2 rest fuel ce le s = as_return (bind F (target h upn p) X s)) ->
+    exec2 (with_hops h rest) fuel ce (le0 p) s = as_return (bind F (target h upn p) X s).
+  Proof.
+    intros Hce Hupn Hh Hbody.
+    destruct (hops_eq_dec h) as [->|Hne].
+    - destruct Hupn as [Hupn|Hx]; [|exfalso; apply Hx; reflexivity].
+      destruct Hh as [Hb Hf]. rewrite (hops_prefix rest fuel ce p upn s Hce Hupn Hb Hf).
+      destruct (chain s p (Z.to_nat upn)) as [w| | |] eqn:C.
+      + apply Hbody; [split; [reflexivity|exists w; split; [reflexivity|exact C]] | intros Hx; exfalso; apply Hx; reflexivity | intros _; exists w; reflexivity].
+      + unfold bind. rewrite target_chain by discriminate. simpl nhops. rewrite C. reflexivity.
+      + unfold bind. rewrite target_chain by discriminate. simpl nhops. rewrite C. reflexivity.
+      + exfalso. apply (chain_not_oof s p (Z.to_nat upn)). exact C.
+    - assert (E : with_hops h rest = rest) by (destruct h; try reflexivity; exfalso; apply Hne; reflexivity).
+      rewrite E. apply Hbody; [split; [reflexivity|destruct h; try exact I; exfalso; apply Hne; reflexivity] | intros _; reflexivity | intros Hx; exfalso; apply Hne; exact Hx].
+  Qed.
+
+  Definition hop_ce (h : hops) (idx upn : Z) (roots : cenv) : cenv :=
+    match h with
+    | HLoop => (EVar V_index, CV F (VInt GInt idx)) :: (EVar V_upn, CV F (VInt GInt upn)) :: roots
+    | _ => (EVar V_index, CV F (VInt GInt idx)) :: roots
+    end.
+
+  Lemma lets_hops h (roots : cenv) rest idx upn :
+    clookup F roots (ECall0 (EMeth (ESel (EVar V_va) F_Desc) M_Index)) = Some (CV F (VInt GInt idx)) ->
+    clookup F roots (ESel (EVar V_va) F_Upn) = Some (CV F (VInt GInt upn)) ->
+    eval_lets roots (hop_lets h ++ rest) = eval_lets (hop_ce h idx upn roots) rest.
+  Proof.
+    intros H1 H2. destruct h; simpl; unfold Sem.ceval; try (rewrite H1; reflexivity).
+    rewrite H2. simpl. rewrite H1. reflexivity.
+  Qed.
+
+  Ltac side_conds :=
+    match goal with
+    | |- sel_freeb _ = true => reflexivity
+    | |- idx_ok _ _ _ => intros ?s0; apply eval_cvar; reflexivity
+    | |- _ \/ _ => first [left; reflexivity | right; discriminate]
+    | |- rhs_src _ _ RConst _ _ => split; [reflexivity | eexists; split; reflexivity]
+    | |- rhs_src _ _ RExpr _ _ => split; [reflexivity | split; [reflexivity | do 2 eexists; split; reflexivity]]
+    | _ => idtac
+    end.
+
+  Theorem var_op_sound op k h c r (i : inputs F) p (s : state) fuel :
+    inputs_ok (TVarOp op k h c r) i -> hops_ok h (in_upn F i) fuel ->
+    run_stmt fuel (roots_of (TVarOp op k h c r) i) (closure_of_tmpl (TVarOp op k h c r)) p s = spec_tmpl (TVarOp op k h c r) i p s.
+  Proof.
+    intros Hi Hh. destruct i as [idx upn cst f sh]. simpl in Hi, Hh.
+    unfold closure_of_tmpl, Model.spec_tmpl, Model.roots_of, Model.rhs_const, op_lets. cbn [in_idx in_upn in_c in_f in_sh].
+    destruct (is_shiftop op) eqn:Hs; destruct r.
+    - (* shift by a constant *)
+      destruct h;
+        (eapply run_of_body;
+         [ rewrite (lets_hops _ _ _ idx upn) by reflexivity; reflexivity
+         | apply hops_body_sound; [reflexivity | side_conds | exact Hh |];
+           intros le Hle Hl1 Hl2;
+           apply (op_body_sound op k _ c RConst upn p idx fuel _ le s (ret F cst)); try exact Hle;
+           try (rewrite (Hl1 ltac:(discriminate))); try (destruct (Hl2 eq_refl) as [w ->]); side_conds ]).
+    - (* shift by an expression *)
+      destruct h;
+        (eapply run_of_body;
+         [ rewrite (lets_hops _ _ _ idx upn) by reflexivity; reflexivity
+         | apply hops_body_sound; [reflexivity | side_conds | exact Hh |];
+           intros le Hle Hl1 Hl2;
+           apply (op_body_sound op k _ c RExpr upn p idx fuel _ le s (f p)); try exact Hle;
+           try (rewrite (Hl1 ltac:(discriminate))); try (destruct (Hl2 eq_refl) as [w ->]); side_conds ]).
+    - (* constant operand *)
+      destruct h;
+        (match goal with |- run_stmt _ ?roots (mkClosure (?hl ++ _) _ _ _) _ _ = _ =>
+           assert (L : eval_lets roots (hl ++ [(V_val, cextract k (valueOf (EVar V_val)))]) =
+                       match norm_const k cst with
+                       | Ok c' => Some ((EVar V_val, CV F c') :: hop_ce _ idx upn roots)
+                       | _ => None end)
+             by (rewrite (lets_hops _ _ _ idx upn) by reflexivity; cbn [Sem.eval_lets];
+                 rewrite (ceval_cextract F fbin fcmp fun1 fconv fpart fofbits _ k (valueOf (EVar V_val)) cst) by (reflexivity || exact Hi);
+                 destruct (norm_const k cst); reflexivity)
+         end;
+         destruct (norm_const k cst) as [c'| | |] eqn:N;
+         [ eapply run_of_body;
+           [ exact L
+           | apply hops_body_sound; [reflexivity | side_conds | exact Hh |];
+             intros le Hle Hl1 Hl2;
+             apply (op_body_sound op k _ c RConst upn p idx fuel _ le s (ret F c')); try exact Hle;
+             try (rewrite (Hl1 ltac:(discriminate))); try (destruct (Hl2 eq_refl) as [w ->]); side_conds ]
+         | unfold Model.run_stmt; cbn [c_lets]; rewrite L; reflexivity
+         | unfold Model.run_stmt; cbn [c_lets]; rewrite L; reflexivity
+         | unfold Model.run_stmt; cbn [c_lets]; rewrite L; reflexivity ]).
+    - (* operand expression *)
+      destruct h;
+        (eapply run_of_body;
+         [ rewrite (lets_hops _ _ _ idx upn) by reflexivity; unfold assertf; cbn [Sem.eval_lets];
+           rewrite (ceval_assert F fbin fcmp fun1 fconv fpart fofbits _ k V_fun f) by reflexivity; reflexivity
+         | apply hops_body_sound; [reflexivity | side_conds | exact Hh |];
+           intros le Hle Hl1 Hl2;
+           apply (op_body_sound op k _ c RExpr upn p idx fuel _ le s (f p)); try exact Hle;
+           try (rewrite (Hl1 ltac:(discriminate))); try (destruct (Hl2 eq_refl) as [w ->]); side_conds ]).
+  Qed.
+
+  Lemma ceval_hit (ce : cenv) e c : clookup F ce e = Some c -> ceval ce e = Some c.
+  Proof. intros H. unfold Sem.ceval. rewrite H. reflexivity. Qed.
+
+  Theorem var_set_sound k h c r (i : inputs F) p (s : state) fuel :
+    inputs_ok (TVarSet k h c r) i -> hops_ok h (in_upn F i) fuel ->
+    run_stmt fuel (roots_of (TVarSet k h c r) i) (closure_of_tmpl (TVarSet k h c r)) p s = spec_tmpl (TVarSet k h c r) i p s.
+  Proof.
+    intros Hi Hh. destruct i as [idx upn cst f sh]. simpl in Hi, Hh.
+    unfold closure_of_tmpl, Model.spec_tmpl, Model.roots_of, Model.rhs_const, set_lets. cbn [in_idx in_upn in_c in_f in_sh].
+    destruct r.
+    - destruct h;
+        (match goal with |- run_stmt _ ?roots (mkClosure (?hl ++ _) _ _ _) _ _ = _ =>
+           assert (L : eval_lets roots (hl ++ [(V_val, cextract k (EVar V_v))]) =
+                       match norm_const k cst with
+                       | Ok c' => Some ((EVar V_val, CV F c') :: hop_ce _ idx upn roots)
+                       | _ => None end)
+             by (rewrite (lets_hops _ _ _ idx upn) by reflexivity; cbn [Sem.eval_lets];
+                 rewrite (ceval_cextract F fbin fcmp fun1 fconv fpart fofbits _ k (EVar V_v) cst) by (reflexivity || exact Hi);
+                 destruct (norm_const k cst); reflexivity)
+         end;
+         destruct (norm_const k cst) as [c'| | |] eqn:N;
+         [ eapply run_of_body;
+           [ exact L
+           | apply hops_body_sound; [reflexivity | side_conds | exact Hh |];
+             intros le Hle Hl1 Hl2;
+             apply (set_body_sound k _ c RConst upn p idx fuel _ le s (ret F c')); try exact Hle;
+             try (rewrite (Hl1 ltac:(discriminate))); try (destruct (Hl2 eq_refl) as [w ->]); side_conds ]
+         | unfold Model.run_stmt; cbn [c_lets]; rewrite L; reflexivity
+         | unfold Model.run_stmt; cbn [c_lets]; rewrite L; reflexivity
+         | unfold Model.run_stmt; cbn [c_lets]; rewrite L; reflexivity ]).
+    - destruct h;
+        (eapply run_of_body;
+         [ rewrite (lets_hops _ _ _ idx upn) by reflexivity; unfold assertf; cbn [Sem.eval_lets];
+           rewrite (ceval_hit _ eFunE (CF F k f)) by reflexivity; cbn [Sem.eval_lets];
+           rewrite (ceval_assert F fbin fcmp fun1 fconv fpart fofbits _ k V_fun f) by reflexivity; reflexivity
+         | apply hops_body_sound; [reflexivity | side_conds | exact Hh |];
+           intros le Hle Hl1 Hl2;
+           apply (set_body_sound k _ c RExpr upn p idx fuel _ le s (f p)); try exact Hle;
+           try (rewrite (Hl1 ltac:(discriminate))); try (destruct (Hl2 eq_refl) as [w ->]); side_conds ]).
   Qed.
 End P.
